@@ -225,6 +225,17 @@ def run_interp(spec, res):
         common.add_violation(res, "interpolate not exact on trilinear field", {})
     else:
         res['nontrivial'].append(['trilinear'] + tagbase)
+    # a large set of targets (a finely sampled sphere is > 1e5 points): every one is evaluated
+    if int(spec['seed']) % 2 == 0:
+        nbig = 70001
+        Tb = [rng.uniform(lo[i], hi[i], nbig) for i in range(3)]
+        res['observations'] += 1
+        gotb = numerical.interpolate(val, tuple(ax), tuple(Tb), method='linear')
+        if gotb.shape != (nbig,) or np.abs(gotb - tri(*Tb)).max() > 1e-10 * max(np.abs(val).max(), 1):
+            common.add_violation(res, "interpolate wrong for a large number of target points",
+                                 {"n": nbig, "bad": int((np.abs(gotb - tri(*Tb)) > 1e-10 * max(np.abs(val).max(), 1)).sum())})
+        else:
+            res['nontrivial'].append(['many targets'] + tagbase)
     # points on the faces are accepted
     for side in range(6):
         T = [rng.uniform(lo[i], hi[i], 4) for i in range(3)]
@@ -340,6 +351,26 @@ def run_psi4(spec, res):
             e_oth = max(e_oth, max(abs(v) for k, v in modes.items() if k != (l0, m0)) / abs(want))
         errs.append(e_main)
         others.append(e_oth)
+    # lmax raised through the documented attribute after construction: the sphere
+    # is sampled finely enough for the new lmax (no aliasing into the top modes)
+    Nc, Lc = 12, 5.0
+    dc = Lc / (Nc - 1)
+    fdc = harness.make_fd(Nc, -Lc / 2, dc, order=2)
+    xc, yc, zc = harness.coords(Nc, -Lc / 2, dc)
+    rc = np.sqrt(xc ** 2 + yc ** 2 + zc ** 2)
+    with np.errstate(all='ignore'):
+        thc = np.arccos(np.where(rc > 0, zc / np.where(rc > 0, rc, 1), 1.0))
+    p4c = f(rc) * maths.sYlm(-2, 2, 0, thc, np.arctan2(yc, xc))
+    relc = harness.make_rel(fdc, {'Weyl_Psi4r': p4c.real.copy(), 'Weyl_Psi4i': p4c.imag.copy()},
+                            lmax=2, extract_radii=[1.5])
+    relc.lmax = 24
+    with common.Quiet():
+        lmc = relc['Psi4_lm'][1.5]
+    res['observations'] += 1
+    top = max(abs(v) for (l, m), v in lmc.items() if l >= 10)
+    if max(l for l, m in lmc) != 24 or top > 0.2 * abs(f(1.5)):
+        common.add_violation(res, "Psi4_lm after raising lmax: modes missing or aliased into the top degrees",
+                             {"lmax_keys": max(l for l, m in lmc), "top_modes_rel": float(top / abs(f(1.5)))})
     res['observations'] += 4
     info = {"l0": l0, "m0": m0, "centre": centre, "radii": radii,
             "err_main": errs, "err_other": others, "method": spec['method']}
